@@ -208,6 +208,14 @@ func c10Prologue() {
 		func() { _, _ = json.MarshalIndent(cyc, "", " ") },
 		func() { _ = json.NewEncoder(failWriter{}).Encode(c10U{X: 1}) },
 		func() { var b bytes.Buffer; _ = json.Compact(&b, []byte(`{"a":[1,}`)) },
+		func() { p, _ := json.CreatePath("$.a.b"); _, _ = p.Extract([]byte(`{"a":{"b":[1,2`)) },
+		func() {
+			p, _ := json.CreatePath("$.a[1]")
+			var v interface{}
+			_ = p.Unmarshal([]byte(`{"a":[1,{"x":tru}]}`), &v)
+		},
+		func() { _, _ = json.MarshalContext(context.Background(), cyc) },
+		func() { _, _ = json.MarshalNoEscape(map[string]interface{}{"c": make(chan int)}) },
 	} {
 		func() {
 			defer func() { _ = recover() }()
